@@ -247,14 +247,18 @@ def _save_file(
                             shard_index=shard_index,
                         ),
                     )
-                assert tensor.name is not None
-                shard_dict[tensor.name] = {
+                # Key the entry by the initializer (value) name, which is what
+                # _replace_tensors looks it up by. The tensor's own name may be unset or
+                # different, and one tensor object may be shared by several initializers.
+                name = values_to_save[current_index].name
+                assert name is not None
+                shard_dict[name] = {
                     "dtype": _IR_DTYPE_TO_SAFETENSORS_DTYPE[tensor.dtype],
                     "shape": _get_tensor_storage_shape(tensor),
                     "data": tensor.tobytes(),
                 }
                 # Update weight_map with shard filename
-                weight_map[tensor.name] = shard_filename
+                weight_map[name] = shard_filename
                 current_offset += tensor.nbytes
                 current_index += 1
 
